@@ -134,6 +134,11 @@ class BackendFloat:
 
 
 def run(node, x, B):
+    """every intermediate result passes through B.wrap (object back-ends re-box scalars that NumPy unboxed)"""
+    return B.wrap(_run(node, x, B))
+
+
+def _run(node, x, B):
     op = node[0]
     if op == 'x':
         return x
